@@ -143,3 +143,56 @@ pub fn simple_handshake(a: &mut PeerCrypto<NodeInfo>, b: &mut PeerCrypto<NodeInf
 pub fn crypto_from(cfg: &CryptoConfig, id: NodeId) -> Result<Crypto, String> {
     Crypto::new(id, cfg).map_err(|e| e.to_string())
 }
+
+// ---------------------------------------------------------------------------------------
+// Counting allocator: records the largest single request per thread (C16: no oversized allocation)
+
+use std::alloc::{GlobalAlloc, Layout, System};
+use std::cell::Cell;
+
+pub struct CountingAlloc;
+
+thread_local! {
+    static MAX_ALLOC: Cell<usize> = const { Cell::new(0) };
+}
+
+unsafe impl GlobalAlloc for CountingAlloc {
+    unsafe fn alloc(&self, layout: Layout) -> *mut u8 {
+        let _ = MAX_ALLOC.try_with(|m| {
+            if layout.size() > m.get() {
+                m.set(layout.size())
+            }
+        });
+        System.alloc(layout)
+    }
+    unsafe fn dealloc(&self, ptr: *mut u8, layout: Layout) {
+        System.dealloc(ptr, layout)
+    }
+    unsafe fn alloc_zeroed(&self, layout: Layout) -> *mut u8 {
+        let _ = MAX_ALLOC.try_with(|m| {
+            if layout.size() > m.get() {
+                m.set(layout.size())
+            }
+        });
+        System.alloc_zeroed(layout)
+    }
+    unsafe fn realloc(&self, ptr: *mut u8, layout: Layout, new_size: usize) -> *mut u8 {
+        let _ = MAX_ALLOC.try_with(|m| {
+            if new_size > m.get() {
+                m.set(new_size)
+            }
+        });
+        System.realloc(ptr, layout, new_size)
+    }
+}
+
+#[global_allocator]
+static GLOBAL: CountingAlloc = CountingAlloc;
+
+/// Runs f and returns (result, largest single allocation request made by this thread meanwhile).
+pub fn with_alloc_watch<T>(f: impl FnOnce() -> T) -> (T, usize) {
+    MAX_ALLOC.with(|m| m.set(0));
+    let r = f();
+    let m = MAX_ALLOC.with(|m| m.get());
+    (r, m)
+}
